@@ -3,10 +3,15 @@
 Case lines
   1 start end
   2 i uses_sched sched_on_start has_out nin valid_mode (src active required)*
+     active: 0 passive by the node's own declaration (schema.active_inputs), 1 active, 2 declared active but
+     carrying the wiring-time passive marker (NodeBuilder::with_passive_inputs), 3 passive + marker.
+     Only 1 is subscribed at start.  Markers that would leave a node with declared-active inputs without any
+     active input are refused by the builder (observation line 18 2).
   3 i k code a b          op for node i in its k-th user-code run (k=-1 start hook, k=-2 default)
      code 1 schedule(now+a, tag b)  2 un_schedule(tag b)  3 un_schedule()  4 pop_tag(b)  5 reset()
           6 emit a + sum(valid inputs)  7 graph.schedule_node(self, now+a)  8 throw
           9 input[a].make_passive()  10 input[a].make_active()   (run-time activation)
+          11 invalidate the node's own output (TSDataMutationView::invalidate)
 Observation lines
   10 t                     root cycle at t
   11 i t                   node i evaluated by the graph at t
@@ -14,6 +19,8 @@ Observation lines
   13 i t opidx next is_sched is_now (has time now?)x3 extra   scheduler queries after op opidx
   14 i t v                 emitted v
   15 i valid v lmt         final output
+  16 i t did               the node invalidated its output at t (did = 0: it held no value, nothing happened)
+  18 code                  the builder refused the program (2: passive markers deactivate every input)
   19 code                  exception escaped run (2 user throw, 3 schedule in the past)
 """
 import random
@@ -49,14 +56,26 @@ def gen(rng, tier, prop):
     outs = []
     sched_w = {"C18": 0.85, "C02": 0.7, "C03": 0.45}.get(prop, 0.6)
     for i in range(n):
-        nin = 0 if not outs or rng.random() < (0.35 if i > 0 else 1.0) else rng.randint(1, min(3, len(outs)))
+        nin = 0 if not outs or rng.random() < (0.35 if i > 0 else 1.0) else rng.randint(1, min(4, len(outs) + 1))
         ins = []
         for _ in range(nin):
             src = rng.choice(outs)
-            ins.append((src, 1 if rng.random() < 0.7 else 0, 1 if rng.random() < 0.6 else 0))
-        if ins and not any(a for _, a, _ in ins) and rng.random() < 0.7:
-            s0 = ins[0]
-            ins[0] = (s0[0], 1, s0[2])
+            ra = rng.random()
+            act = 1 if ra < 0.62 else (0 if ra < 0.80 else (2 if ra < 0.94 else 3))
+            ins.append((src, act, 1 if rng.random() < 0.6 else 0))
+        if nin >= 2 and rng.random() < 0.12:
+            # an explicit selector with a gap and a marker behind the gap: active, passive, ..., active + marked
+            ins[0] = (ins[0][0], 1, ins[0][2])
+            ins[1] = (ins[1][0], 0, ins[1][2])
+            ins[-1] = (ins[-1][0], 2, ins[-1][2]) if nin > 2 else ins[-1]
+            if nin > 2 and rng.random() < 0.5:
+                ins[0] = (ins[0][0], 2, ins[0][2])
+                ins[-1] = (ins[-1][0], 1, ins[-1][2])
+        if ins and not any(a == 1 for _, a, _ in ins) and (rng.random() < 0.7 or any(a == 2 for _, a, _ in ins)):
+            # (a marker may not deactivate every input of a node that declares active ones: keep the refusal rare)
+            if rng.random() < 0.97 or not any(a == 2 for _, a, _ in ins):
+                s0 = ins[0]
+                ins[0] = (s0[0], 1, s0[2])
         uses_sched = 1 if rng.random() < sched_w else 0
         has_out = 1 if rng.random() < 0.75 or i == 0 else 0
         sos = 1 if (nin == 0 and rng.random() < 0.7) or rng.random() < 0.1 else 0
@@ -81,6 +100,8 @@ def gen(rng, tier, prop):
         dflt = []
         if ho and rng.random() < 0.85:
             dflt.append([6, rng.randint(-3, 9), 0])
+            if rng.random() < 0.04:
+                dflt.append([11, 0, 0])
         if us and rng.random() < 0.6:
             dflt.append([1, rng.choice([1, 1, 2, 3]), rng.choice(TAGS)])
         if not us and rng.random() < 0.15:
@@ -95,8 +116,10 @@ def gen(rng, tier, prop):
                     r = rng.random()
                     if us and r < 0.7:
                         ops.append(_sched_op(rng))
-                    elif ho and r < 0.9:
+                    elif ho and r < 0.82:
                         ops.append([6, rng.randint(-3, 9), 0])
+                    elif ho and r < 0.9:
+                        ops.append([11, 0, 0])
                     elif r < 0.96:
                         ops.append([7, rng.choice([0, 1, 2, 4]), 0])
                     elif r < 0.975 and tier != "quick":
@@ -110,6 +133,21 @@ def gen(rng, tier, prop):
                 for op in ops:
                     case.append([3, i, k] + op)
     return case
+
+
+def no_refusal(case):
+    """Rewrite node lines so that the builder accepts every passive-marker set (used by families that embed
+    core programs and do not model the refusal)."""
+    out = []
+    for l in case:
+        if l[0] == 2:
+            l = list(l)
+            codes = [l[8 + 3 * s] for s in range(l[5])]
+            if any(c in (2, 3) for c in codes) and any(c in (1, 2) for c in codes) and not any(c == 1 for c in codes):
+                k = next(s for s in range(l[5]) if l[8 + 3 * s] == 2)
+                l[8 + 3 * k] = 1
+        out.append(l)
+    return out
 
 
 # ---------------------------------------------------------------- helpers
@@ -141,7 +179,13 @@ def stats(case, out):
     cyc = sum(1 for l in out if l and l[0] == 10) if isinstance(out, list) else 0
     return {"nodes": len(nodes), "cycles": cyc,
             "sched_nodes": sum(n["us"] for n in nodes),
-            "passive_inputs": sum(1 for n in nodes for s in n["ins"] if not s[1]),
+            "passive_inputs": sum(1 for n in nodes for s in n["ins"] if s[1] != 1),
+            "marked_inputs": sum(1 for n in nodes for s in n["ins"] if s[1] in (2, 3)),
+            "selector_gap_marker": sum(1 for n in nodes if any(a in (0, 3) for (_s, a, _r) in n["ins"][:-1])
+                                       and any(a == 2 and any(b in (0, 3) for (_s2, b, _r2) in n["ins"][:k])
+                                               for k, (_s, a, _r) in enumerate(n["ins"]))),
+            "invalidations": sum(1 for l in out if l and l[0] == 16 and l[3] == 1) if isinstance(out, list) else 0,
+            "build_refused": int(any(l and l[0] == 18 for l in out)) if isinstance(out, list) else 0,
             "ops": sum(len(v) for v in scripts.values()),
             "error": int(any(l and l[0] == 19 for l in out)) if isinstance(out, list) else 1}
 
@@ -161,6 +205,13 @@ def oracle(prop, case, out):
         return [("crash", str(out))]
     start, end, nodes, scripts = parse_case(case)
     n = len(nodes)
+    # the builder refuses passive markers that deactivate every input of a node declaring active ones
+    refuse = any(any(a in (2, 3) for (_s, a, _r) in nd["ins"]) and any(a in (1, 2) for (_s, a, _r) in nd["ins"])
+                 and not any(a == 1 for (_s, a, _r) in nd["ins"]) for nd in nodes)
+    if any(l[0] == 18 for l in out) or refuse:
+        if refuse and out == [[18, 2]]:
+            return []
+        return [("build_error", "builder refusal expected=%s, trace %s" % (refuse, out[:2]))]
     pending = [set() for _ in range(n)]          # spec: the set of pending (time, tag)
     abandoned = [set() for _ in range(n)]        # times once requested through the scheduler and later cancelled / replaced
     raw = [None] * n                             # the raw (stateless) request outstanding: the graph slot keeps only the earliest (by design)
@@ -173,8 +224,9 @@ def oracle(prop, case, out):
             raw[i] = w
         else:
             raw_dropped.add(w)
-    outv = [None] * n                            # (value, time) of last emission
-    actv = [[bool(a) for (_s, a, _r) in nd["ins"]] for nd in nodes]   # current activity of every input (run-time make_active / make_passive)
+    outv = [None] * n                            # (value, time) of last emission; None: never written or invalidated since
+    ever_invalidated = set()
+    actv = [[a == 1 for (_s, a, _r) in nd["ins"]] for nd in nodes]   # current activity of every input (run-time make_active / make_passive)
     emitted_at = {}                              # (node, t) -> True
     err = any(l[0] == 19 for l in out)
     cycles = [l[1] for l in out if l[0] == 10]
@@ -317,6 +369,10 @@ def oracle(prop, case, out):
                 valid, mod, val, lmt = l[6 + 4 * s: 10 + 4 * s]
                 ev = outv[src]
                 exp = [1, int(ev[1] == t), ev[0], ev[1]] if ev else [0, 0, 0, 0]
+                if not ev and src in ever_invalidated:
+                    # an invalidated producer: C03 asks that the input holds no value; what modified / last-modified
+                    # read for an invalid input is C04's subject (recorded there), not compared here
+                    exp = [0, mod, 0, lmt]
                 if [valid, mod, val, lmt] != exp:
                     fails.append(("stale_read", "node %d input %d at %d reads %s, producer state implies %s"
                                   % (i, s, t, [valid, mod, val, lmt], exp)))
@@ -344,7 +400,7 @@ def oracle(prop, case, out):
                         spec_cancel(i, lambda e: e[1] == b)
                     elif code == 5:
                         spec_cancel(i, lambda e: True)
-                    while p2 < L and out[p2][0] == 14:
+                    while p2 < L and out[p2][0] in (14, 16):
                         p2 += 1
                     if p2 < L and out[p2][0] == 13 and out[p2][1] == i and out[p2][3] == opi:
                         check_queries(i, t, out[p2], "after op %d of run %d" % (opi, k))
@@ -364,6 +420,17 @@ def oracle(prop, case, out):
                 elif code == 6 and nd["ho"]:
                     pass
                 opi += 1
+        elif l[0] == 16:
+            i, t, did = l[1], l[2], l[3]
+            if did != int(outv[i] is not None):
+                fails.append(("invalidate_result", "node %d invalidate at %d reports %d, output valid before: %s" % (i, t, did, outv[i] is not None)))
+            if did:
+                outv[i] = None
+                ever_invalidated.add(i)
+                for j in range(n):                # an invalidation notifies the subscribed inputs like a write
+                    for s_j, (src, _a, _r) in enumerate(nodes[j]["ins"]):
+                        if src == i and actv[j][s_j]:
+                            woke[(j, t, s_j)] = True
         elif l[0] == 14:
             i, t, v = l[1], l[2], l[3]
             outv[i] = (v, t)
@@ -406,7 +473,7 @@ PROP_KINDS = {
     "C01": {"evaluated_twice", "scan_order", "stale_read", "not_evaluated", "run_without_eval"},
     "C02": {"cycle_order", "cycle_window", "missed_wakeup", "missed_raw", "empty_cycle", "spurious_cycle", "spurious_cycle_abandoned"},
     "C03": {"missed_wakeup", "spurious_eval", "spurious_eval_abandoned", "stale_read", "ran_not_ready", "run_without_eval", "run_index",
-            "evaluated_twice", "not_evaluated", "not_run", "emit_value"},
+            "evaluated_twice", "not_evaluated", "not_run", "emit_value", "build_error", "invalidate_result"},
     "C18": {"query_mismatch", "tag_multi", "missed_wakeup", "spurious_eval_abandoned", "trace_shape"},
 }
 
